@@ -1,2 +1,25 @@
 def run(ctx):
-    return ""
+    """C06.combine: left-biased (value, index) combine of the arg-reductions keeps the first occurrence and its global index;
+    _pick_second returns the index component."""
+    import warnings
+
+    import numpy as np
+
+    from . import c04_proofs
+    from .c04_finalizers import PICK
+    from ..pyvc.run import add_to_ctx
+    from flox.aggregations import _initialize_aggregation
+
+    n = 0
+    for func in ("argmax", "argmin", "nanargmax", "nanargmin"):
+        for dt in ("float64", "int64"):
+            with warnings.catch_warnings():
+                warnings.simplefilter("ignore")
+                agg = _initialize_aggregation(func, None, np.dtype(dt), None, 0, None)
+            obs = c04_proofs.arg_obligations(func, agg, f"C06.{func}.{dt}")
+            ctx.add_obligations(obs)
+            n += len(obs)
+    PICK.prefix = "C06.pick_second"
+    ex, obs = add_to_ctx(ctx, PICK, {})
+    n += len(obs)
+    return f"arg-reduction pair algebra and _pick_second: {n} obligations."
